@@ -1189,7 +1189,7 @@ def gen_function(env, numeric_only=False):
         ann = {"int": "int", "float": "float", "bool": "bool", "String": "str"}[t]
         # unannotated parameters are typed int by the transpiler: only annotate-free when int
         sig.append(f"{pn}: {ann}" if (annotate or t != "int") else pn)
-    ret = rng.choice([None, None, "int", "float", "bool", "String"] if not numeric_only else [None, "int", "int", "float", "bool"])
+    ret = rng.choice([None, None, "int", "float", "bool", "String"] if not numeric_only else [None, "int", "int", "int"])
     prelude = []
     if not ret and rng.random() < 0.3:
         c, _ = gen_bool(fe, 1)
@@ -1488,7 +1488,7 @@ def gen_script(rng, opts=None):
         sec_fns += gen_poly_function(env, "via")
     # functions; each may call the ones generated before it.  In "forward" mode the definitions are written in REVERSE order, so
     # that every such call is a call of a function defined further down (prototypes: fix of F-C06-fn-forward-call); a function
-    # called forward returns a number, a bool or nothing (guard of F-C06-fn-forward-call-return-type)
+    # called forward returns an int or nothing (guard of F-C06-fn-forward-call-return-type)
     forward = opts.get("forward", rng.random() < 0.3)
     blocks = []
     for _ in range(rng.choice([0, 1, 1, 2, 3]) if not opts.get("forward") else rng.choice([2, 3, 3, 4])):
@@ -1562,8 +1562,8 @@ def shapes_of(src: str):
         for n in ast.walk(f):
             if isinstance(n, ast.Call) and isinstance(n.func, ast.Attribute) and n.func.attr == "animate":
                 out.add("fn-lcd-animate")
-    # a call of a function defined further down whose result is not evidently a number, a bool or nothing: the caller is translated
-    # before the callee's return type is known and treats the result as int (F-C06-fn-forward-call-return-type)
+    # a call of a function defined further down whose result is not evidently an int or nothing: the caller is translated before
+    # the callee's return type is known and treats the result as int (F-C06-fn-forward-call-return-type)
     numeric = _evidently_numeric_functions(tree, fdefs)
     for f in fdefs:
         for n in ast.walk(f):
@@ -1675,34 +1675,31 @@ def shapes_of(src: str):
     return out
 
 
-_NUMERIC_CALLS = {"int", "float", "bool", "abs", "len", "min", "max", "round", "analog_read", "digital_read", "millis", "map"}
-_NUMERIC_METHODS = {"measure_distance", "read", "read_us", "is_pressed", "get_state", "get_brightness", "get_speed", "get_angle", "index", "count"}
+_INT_CALLS = {"int", "len", "analog_read", "digital_read", "millis"}
+_INT_ARITH = (ast.Add, ast.Sub, ast.Mult, ast.FloorDiv, ast.Mod, ast.BitAnd, ast.BitOr, ast.BitXor, ast.LShift, ast.RShift)
 
 
 def _numeric_expr(e, names, fns):
-    """conservative: True only if the expression evidently denotes an int / float / bool"""
+    """conservative: True only if the expression evidently denotes an int (not a bool, not a float)"""
     if isinstance(e, ast.Constant):
-        return isinstance(e.value, (int, float, bool)) and not isinstance(e.value, str)
+        return isinstance(e.value, int) and not isinstance(e.value, bool)
     if isinstance(e, ast.Name):
         return e.id in names
     if isinstance(e, ast.BinOp):
-        return not isinstance(e.op, ast.Pow) and _numeric_expr(e.left, names, fns) and _numeric_expr(e.right, names, fns)
+        return isinstance(e.op, _INT_ARITH) and _numeric_expr(e.left, names, fns) and _numeric_expr(e.right, names, fns)
     if isinstance(e, ast.UnaryOp):
-        return _numeric_expr(e.operand, names, fns)
-    if isinstance(e, (ast.Compare, ast.BoolOp)):
-        return True
+        return isinstance(e.op, (ast.USub, ast.UAdd, ast.Invert)) and _numeric_expr(e.operand, names, fns)
     if isinstance(e, ast.IfExp):
         return _numeric_expr(e.body, names, fns) and _numeric_expr(e.orelse, names, fns)
-    if isinstance(e, ast.Call):
-        if isinstance(e.func, ast.Name):
-            return e.func.id in _NUMERIC_CALLS or e.func.id in fns
-        if isinstance(e.func, ast.Attribute):
-            return e.func.attr in _NUMERIC_METHODS
+    if isinstance(e, ast.Call) and isinstance(e.func, ast.Name) and not e.keywords:
+        if e.func.id in ("abs", "min", "max"):
+            return bool(e.args) and all(_numeric_expr(a, names, fns) for a in e.args)
+        return e.func.id in _INT_CALLS or e.func.id in fns
     return False
 
 
 def _numeric_names(body_nodes, start, fns):
-    """names whose EVERY assignment among the given statements is evidently numeric (fixpoint)"""
+    """names whose EVERY assignment among the given statements is evidently an int (fixpoint)"""
     assigns = {}
     for st in body_nodes:
         for n in ast.walk(st):
@@ -1730,7 +1727,7 @@ def _numeric_names(body_nodes, start, fns):
 
 
 def _evidently_numeric_functions(tree, fdefs):
-    """user functions every return value of which is evidently an int / float / bool (or that return nothing)"""
+    """user functions every return value of which is evidently an int (or that return nothing)"""
     fns = {f.name for f in fdefs}
     top = [st for st in tree.body if not isinstance(st, ast.FunctionDef)]
     changed = True
@@ -1740,8 +1737,7 @@ def _evidently_numeric_functions(tree, fdefs):
         for f in fdefs:
             if f.name not in fns:
                 continue
-            params = [a.arg for a in f.args.args
-                      if a.annotation is None or (isinstance(a.annotation, ast.Name) and a.annotation.id in ("int", "float", "bool"))]
+            params = [a.arg for a in f.args.args if isinstance(a.annotation, ast.Name) and a.annotation.id == "int"]
             local_assigned = {m.id for n in ast.walk(f) for m in ast.walk(n) if isinstance(m, ast.Name) and isinstance(m.ctx, ast.Store)}
             names = _numeric_names(f.body, params, fns) | (glob - local_assigned - {a.arg for a in f.args.args})
             rets = [n.value for n in ast.walk(f) if isinstance(n, ast.Return) and n.value is not None]
